@@ -90,6 +90,16 @@ Theorem second_export_equals_first :
 Proof. exact second_export_equals_first_lemma. Qed.
 Print Assumptions second_export_equals_first.
 
+(* exports interleaved with arbitrary in-place edits of the same object: a later export renders the matrix that the edits
+   alone produce, i.e. what an equal matrix edited the same way but never exported gives.  (The model's writers have no state
+   besides the matrix; that the real ones keep none - no module-level cache surviving a dump - is what harness/p_c14.py's
+   export/edit/export probe runs, it is not proved.) *)
+Theorem export_after_edits_equals_fresh :
+  forall (Bytes : Type) (render : writer -> matrix -> Bytes) (steps : list step) (b : writer) (m : matrix),
+    render b (run_steps true steps m) = render b (run_steps true (edits_only steps) m).
+Proof. exact export_after_edits_equals_fresh_lemma. Qed.
+Print Assumptions export_after_edits_equals_fresh.
+
 Theorem second_export_equals_first_unfixed_refuted :
   exists a b m, view b (effect false a m) <> view b m.
 Proof. exact second_export_unfixed_refuted. Qed.
